@@ -858,6 +858,75 @@ def derived_ok(P, adt, name, src):
                                 fn_ok = False
                         if fn_ok:
                             continue
+                    # ... or both are picked by matches on one and the same discriminant (`shape.rust_type()` / `shape.type_structure()` of a small
+                    # enum, spliced in): per outcome of that discriminant one source constant and one structure constant
+                    def by_discriminant(op_):
+                        """{(discriminant text, variant): constant} when the operand is one constant per outcome of a match on one discriminant"""
+                        import json as _json2
+                        pl_ = op_place(op_)
+                        hops_ = 0
+                        while pl_ is not None and hops_ < 8:
+                            ds_ = f.defs.get(pl_["l"], [])
+                            if len(ds_) == 1 and ds_[0][0] == "stmt" and ds_[0][3]["k"] in ("use", "cast"):
+                                pl_ = op_place(ds_[0][3]["op"])
+                            elif len(ds_) == 1 and ds_[0][0] == "stmt" and ds_[0][3]["k"] in ("ref", "copy_for_deref"):
+                                pl_ = {"l": ds_[0][3]["place"]["l"]}
+                            elif len(ds_) == 1 and ds_[0][0] == "call" and ds_[0][2].args and ds_[0][2].name in ("to_string", "to_owned", "into", "from", "clone", "deref"):
+                                pl_ = op_place(ds_[0][2].args[0])
+                            else:
+                                break
+                            hops_ += 1
+                        if pl_ is None:
+                            return None
+                        L_ = pl_["l"]
+                        defs_ = {}
+                        for d_ in f.defs.get(L_, []):
+                            if d_[0] != "stmt":
+                                return None
+                            oo_ = f._origin_def(d_, L_, 6, {L_})
+                            while oo_[0] == "proj":
+                                oo_ = oo_[1]
+                            if oo_[0] not in ("aggr", "const"):
+                                return None
+                            defs_[d_[1]] = _json2.dumps(oo_[1], sort_keys=True, default=str)
+                        if len(defs_) < 2:
+                            return None
+                        for b_ in sorted(f.reach_blocks):
+                            t_ = f.blocks[b_]["term"]
+                            if t_["k"] != "switch":
+                                continue
+                            od_ = f.origin(t_["discr"])
+                            if od_[0] != "discr" or set(od_[2].values()) <= {"Some", "None", "Ok", "Err", "Continue", "Break"}:
+                                continue
+                            table = {}
+                            okk = True
+                            for (lab_, y_) in f.succ_edges(b_):
+                                outcome_ = f.cond_struct(b_, lab_)[1]
+                                seen_ = set()
+                                work_ = [y_]
+                                hit_ = set()
+                                while work_:
+                                    x_ = work_.pop()
+                                    if x_ in seen_:
+                                        continue
+                                    seen_.add(x_)
+                                    if x_ in defs_:
+                                        hit_.add(defs_[x_])
+                                        continue
+                                    work_.extend(f.succ[x_])
+                                if len(hit_) != 1:
+                                    okk = False
+                                    break
+                                for v_ in outcome_.split("|"):
+                                    table[(f.describe_origin(od_[1], deep=2), v_)] = next(iter(hit_))
+                            if okk and table:
+                                return table
+                        return None
+                    tt_, ts_ = by_discriminant(rv["ops"][i]), by_discriminant(rv["ops"][j])
+                    if tt_ and ts_ and set(tt_) == set(ts_):
+                        mp2 = {}
+                        if all(mp2.setdefault(ts_[k_], tt_[k_]) == tt_[k_] for k_ in tt_):
+                            continue
                     return False, "%s: %s takes one of %d constants that the %s constants do not determine" % (short_path(f.id), name, len(o[2]), src)
                 if o[0] == "call" and short_path(o[1].best) == "TypeResolver::parse_type_structure":
                     arg = f.describe_origin(f.origin(o[1].args[1]), short=False, deep=4)
